@@ -47,6 +47,7 @@ func checkC10(c *Ctx) {
 	c10proj(c)
 	c08pipeModel(c, "", "", "C10.R1")
 	c10members(c, "C10.R1")
+	c09shiftModel(c, "", "C10.R1")
 }
 
 func isTransformerType(t types.Type) bool {
